@@ -7,13 +7,8 @@ import random
 from . import arena, build, tlc
 
 
-class Result:
-    def __init__(self, engine, level="model_checking"):
-        self.engine = engine
-        self.level = level
-        self.violations = []     # dicts: desc, cluster, slug, dev, replay
-        self.coverage = {}
-        self.assumptions = []
+from .engines_common import Result  # noqa: E402
+from . import handlers, tok  # noqa: E402
 
 
 # --------------------------------------------------------------------------------------
@@ -122,7 +117,7 @@ def run_arena(prop, tier, seed, workdir, families=None):
 
 NO_SRC = set(ARENA_FAMILIES['fill']['fns'] + ARENA_FAMILIES['xform']['fns'])
 
-ENGINES = {}
+ENGINES = {"C13": handlers.run, "C14": tok.run}
 for _p in ("C01", "C02", "C03", "C04", "C05", "C06", "C07", "C08"):
     ENGINES[_p] = run_arena
 
@@ -139,6 +134,10 @@ def replay(prop, path, workdir):
                                            replay=dict(kind="arena", case=b["case"], flavour=b["flavour"], place=b["place"],
                                                        observed=b["event"], props=b["props"])))
         print("replayed 1 case: observed", json.dumps(bad[0]["event"] if bad else "conforming"))
+    elif rp["kind"] == "tok":
+        return tok.replay(rp, workdir)
+    elif rp["kind"] == "handlers":
+        return handlers.replay(rp, workdir)
     else:
         raise RuntimeError("unknown replay kind " + str(rp["kind"]))
     res.coverage = {}
